@@ -79,6 +79,7 @@ Definition nth_r (Rs : list (list (N * N))) (b : N) : list (N * N) := nth (N.to_
 
 Definition block_phis_ok (blk : block) : bool :=
   nodupb (phi_outs (leading_phis blk)) &&
+  forallb (fun ins => nodupb (map fst (phi_pairs (i_args ins)))) (leading_phis blk) &&
   forallb (fun ins => match phi_out ins with Some _ => true | None => false end) (leading_phis blk) &&
   forallb (fun ins => negb (is_phi ins)) (body blk).
 
